@@ -23,6 +23,7 @@ import Frp.Engines.Stack
 import Frp.Engines.E2e
 import Frp.Engines.Pool
 import Frp.Engines.HttpE2e
+import Frp.Engines.Xtcp
 /-! Registry of driver engines (one line per engine). -/
 namespace Frp.Engines
 open Frp.Proto
@@ -53,5 +54,6 @@ def all : List (String × Engine) :=
   , ("e2e", e2e)
   , ("pool", pool)
   , ("httpe2e", httpe2e)
+  , ("xtcp", xtcp)
   ]
 end Frp.Engines
